@@ -50,7 +50,7 @@ class C11(Prop):
 class C10(Prop):
     pid = 'C10'
     k_fields = ['CN', 'CNB', 'CNA', 'R', 'B']
-    o_fields = ['O10', 'O10s', 'arity', 'bcount']
+    o_fields = ['O10', 'O10s', 'O10e', 'arity', 'bcount']
     rule = ('trees with conditionals and nested calls/arrays over environments registering every arity kind (exact, optional, variadic, none; pure and '
             'impure) called with 0..4 arguments, bound and unbound variables; oracle: accepted => execute never yields UndefinedVariable/FunctionNotFound, '
             'still accepted after optimize; function_exists verdict == registered arity (and registered purity) for every arity kind and every registered builtin at counts 0..8 and at '
@@ -61,6 +61,8 @@ class C10(Prop):
         out = [(c, 'release') for c in trees.gen_opt('quick' if tier == 'quick' else 'thorough', R, kind='opt')]
         out += [(c.replace('(opt _', '(case _', 1), 'release') for c, _ in out[:len(out) // 3]]
         out += [('(arity _)', 'release')]
+        # the same claims against the real StaticEnvironment (case-folded names, non-ASCII spellings, the whole standard library registered)
+        out += [(c, 'release') for c in misc.gen_respell(tier, R)]
         return out
 
 
